@@ -3,6 +3,7 @@ from hypothesis import strategies as st
 
 import gen_const
 import gen_source
+import gen_util
 from checks import _prog
 
 ID = "C08"
@@ -36,7 +37,7 @@ def run_case(ctx, case, versions):
 def strategy(tier):
     groups = gen_const.const_groups(3).map(lambda g: {"group": g, "_label": "const_triples"})
     progs = gen_source.programs(max_size=20, mix=(85, 0, 15))
-    return st.one_of(groups, groups, groups, progs)
+    return gen_util.weighted((3, groups), (1, progs))
 
 
 NAN_PROGRAMS = [
